@@ -66,10 +66,12 @@ fn cases(ctx: &Ctx, sink: &mut Sink) {
       let ldp = g(lh.as_ref().and_then(|l| catch_iso(|| l.get_lunar_day().get_sixty_cycle().get_index() as i64)));
       let lhp = g(lh.as_ref().and_then(|l| catch_iso(|| l.get_sixty_cycle().get_index() as i64)));
       let lslot = g(lh.as_ref().map(|l| l.get_index_in_day() as i64));
+      // ... and once more on the same object after its instant-level view has been read (which fills its memo)
+      let lhp2 = g(lh.as_ref().and_then(|l| catch_iso(|| { let _ = l.get_sixty_cycle_hour(); let _ = l.get_twelve_star(); l.get_sixty_cycle().get_index() as i64 })));
       let sdp = g(sh.as_ref().map(|s| s.get_day().get_index() as i64));
       let shp = g(sh.as_ref().map(|s| s.get_sixty_cycle().get_index() as i64));
       let sslot = g(sh.as_ref().map(|s| s.get_index_in_day() as i64));
-      sink.put(Ev::new("hc").i("s", 0).i("era", era as i64).i("j", j).i("dp", dp).i("h", h).i("rd", rd).i("hp", hp).i("ldp", ldp).i("lhp", lhp).i("lslot", lslot).i("sdp", sdp).i("shp", shp).i("sslot", sslot).done());
+      sink.put(Ev::new("hc").i("s", 0).i("era", era as i64).i("j", j).i("dp", dp).i("h", h).i("rd", rd).i("hp", hp).i("ldp", ldp).i("lhp", lhp).i("lhp2", lhp2).i("lslot", lslot).i("sdp", sdp).i("shp", shp).i("sslot", sslot).done());
     }
   }
 }
@@ -119,10 +121,16 @@ fn compositions(ctx: &Ctx, sink: &mut Sink) {
         let _ = l0.get_eight_char();
         l0.next(n as isize)
       });
+      // the sexagenary hour is reached by stepping as well, on every other such instant
+      let sh = if k % 2 == 0 { catch_iso(|| t.next(-7200 * n as isize).get_sixty_cycle_hour().next(7200 * n as isize)) } else { None };
       match lh {
         Some(l) => (
           catch_iso(|| ec4(&l.get_eight_char())).unwrap_or(vec![-9; 4]),
-          catch_iso(|| ec4(&l.get_sixty_cycle_hour().get_eight_char())).unwrap_or(vec![-9; 4]),
+          match (k % 2 == 0, sh) {
+            (true, Some(x)) => catch_iso(|| ec4(&x.get_eight_char())).unwrap_or(vec![-9; 4]),
+            (true, None) => vec![-9; 4],
+            _ => catch_iso(|| ec4(&l.get_sixty_cycle_hour().get_eight_char())).unwrap_or(vec![-9; 4]),
+          },
         ),
         None => (vec![-9; 4], vec![-9; 4]),
       }
